@@ -9,6 +9,7 @@ CONSTANTS
   Weak_BackwardsUnbound = FALSE
   Weak_ReplacementHashUnchecked = FALSE
   Weak_PromotedWitnessStays = FALSE
+  Weak_PartialTraceOnBenignError = FALSE
 INIT Init
 NEXT Next
 CHECK_DEADLOCK FALSE
